@@ -9,6 +9,7 @@
 #include "iora/core/logger.hpp"
 #include "iora/parsers/json.hpp"
 #include <condition_variable>
+#include <filesystem>
 #include <fstream>
 #include <mutex>
 #include <set>
@@ -227,17 +228,35 @@ private:
   {
     try
     {
-      std::ofstream file(_filename);
+      // Never truncate the live file before the new content is complete: write a temporary
+      // file, check the stream, then rename it over the live file (atomic replace).
+      const std::string tempName = _filename + ".tmp";
+      std::ofstream file(tempName, std::ios::trunc);
       if (file)
       {
         std::string jsonData = _store.dump(2);
         file << jsonData;
-        iora::core::Logger::debug("JsonFileStore: Wrote " + std::to_string(jsonData.length()) +
-                                  " bytes to " + _filename);
+        file.close();
+        std::error_code ec;
+        if (!file.fail())
+        {
+          std::filesystem::rename(tempName, _filename, ec);
+        }
+        if (file.fail() || ec)
+        {
+          std::filesystem::remove(tempName, ec);
+          iora::core::Logger::error("JsonFileStore: Failed to write " + _filename +
+                                    " (previous content kept)");
+        }
+        else
+        {
+          iora::core::Logger::debug("JsonFileStore: Wrote " + std::to_string(jsonData.length()) +
+                                    " bytes to " + _filename);
+        }
       }
       else
       {
-        iora::core::Logger::error("JsonFileStore: Failed to open " + _filename + " for writing");
+        iora::core::Logger::error("JsonFileStore: Failed to open " + tempName + " for writing");
       }
     }
     catch (const std::exception &e)
